@@ -48,7 +48,9 @@ class FnModel:
                  evaluator: Optional[Evaluator] = None):
         self.index = index
         self.func = func
-        self.walk = walk_function(func.node)
+        from .inline import inlined_function
+        self.node, self.inlined = inlined_function(index, func)
+        self.walk = walk_function(self.node)
         self.ren = role_rename(func.node, roles)
         self.roles = list(roles)
         self.ev = evaluator or Evaluator(index)
